@@ -50,6 +50,14 @@ COUPLED = {
     ("GeoImage", "dip", "rotation"): "both derived from the corner vertices",
 }
 
+# (flag, attribute): the flag is a permission that is naturally consulted when the attribute is written; the two share
+# a window of their own (whole transition cover, so the attribute is assigned in every state of the flag) whatever their
+# distance in the alphabetical order
+GUARDED = [("modifiable", "values")]
+# boolean flags (some read back from the file as the integers 0 / 1): their domain is {True, False}
+FLAGS = {"modifiable", "vertical", "allow_delete", "allow_move", "allow_rename", "public", "visible", "partially_hidden",
+         "hidden", "transparent_no_data", "allow_move_content", "allow_delete_content"}
+
 # attributes of the EM / DC surveys that are views of the Metadata dictionary (base.py edit_em_metadata)
 METADATA_VIEWS = {"channels", "unit", "input_type", "loop_radius", "receivers", "transmitters", "base_stations",
                   "tx_id_property", "crossline_offset", "inline_offset", "vertical_offset", "pitch", "roll", "yaw",
@@ -633,6 +641,9 @@ class Fixture:  # pylint: disable=too-many-instance-attributes
 
 # ----------------------------------------------------------------------------------------------------------------------
 # domains
+# json-stored dictionaries (metadata, options): non-finite numbers are valid values and round-trip (json writes NaN /
+# Infinity and reads them back), so they are among the tokens
+NONFINITE = [1.5, float("nan"), float("inf"), float("-inf")]
 STRINGS = ["alpha", "bêta éè 漢字", "gamma_3"]
 PLANNING = ["Default", "Ongoing", "Planned", "Completed", "No status"]
 MAPPING = ["linear", "equal_area", "logarithmic", "cdf"]
@@ -700,7 +711,7 @@ def _generic(cur):  # pylint: disable=too-many-return-statements
     if isinstance(cur, np.ndarray):
         return [_shift_array(cur, 1), _shift_array(cur, 2)]
     if isinstance(cur, dict):
-        return [{**copy.deepcopy(cur), "extra_1": "xé"}, {**copy.deepcopy(cur), "extra_2": [1, 2.5]}]
+        return [{**copy.deepcopy(cur), "extra_1": "xé"}, {**copy.deepcopy(cur), "extra_2": {"deep": list(NONFINITE)}}]
     if isinstance(cur, list) and cur and all(isinstance(x, float) for x in cur):
         return [[x + 0.5 for x in cur], [x * 2 + 1.25 for x in cur]]
     raise Skip(f"no generic domain for a value of type {type(cur).__name__}")
@@ -726,7 +737,7 @@ def domain(fx: Fixture, ent, attr, cur):  # pylint: disable=too-many-return-stat
         raise Skip("hard-wired to False in the constructor (data/filename_data.py:33): no valid new value (the setter "
                    "nevertheless accepts True and writes it)")
     # ---- per-attribute overrides
-    if isinstance(cur, (bool, np.bool_)) or attr == "vertical":
+    if isinstance(cur, (bool, np.bool_)) or (attr in FLAGS and cur in (0, 1)):
         # two-valued domain: token 1 = negation, token 2 = the original value given as the other spelling (int 0/1)
         return [not bool(cur), bool(cur)], base
     if attr in ("u_count", "v_count", "w_count") and name == "Octree":
@@ -751,17 +762,17 @@ def domain(fx: Fixture, ent, attr, cur):  # pylint: disable=too-many-return-stat
         if isinstance(cur, dict) and "EM Dataset" in cur:
             a, b = copy.deepcopy(cur), copy.deepcopy(cur)
             a["EM Dataset"]["Extra"] = "xé"
-            b["EM Dataset"]["Extra"] = [1, 2.5]
+            b["EM Dataset"]["Extra"] = list(NONFINITE)
             return [a, b], base
         # the setter UPDATES the stored dictionary (entity.py:238-240, documented), so the values of the domain share
         # their keys: then updating and replacing coincide
         if isinstance(cur, dict) and cur:
             k0 = sorted(cur)[0]
-            return [{**copy.deepcopy(cur), k0: "vé"}, {**copy.deepcopy(cur), k0: [1, 2.5]}], base
-        return [{"key": "vé"}, {"key": [1, 2.5]}], {"key": "zero"}
+            return [{**copy.deepcopy(cur), k0: "vé"}, {**copy.deepcopy(cur), k0: list(NONFINITE)}], base
+        return [{"key": "vé"}, {"key": list(NONFINITE)}], {"key": "zero"}
     if attr == "options":
         if not isinstance(cur, dict) or not cur:
-            return [{"title": "t1", "n": 2}, {"title": "t2é", "m": [1, 2]}], {"title": "t0", "n": 1}
+            return [{"title": "t1", "n": 2}, {"title": "t2é", "m": list(NONFINITE)}], {"title": "t0", "n": 1}
         return _generic(cur), base
     if attr == "contributors":
         return [np.array(["ann", "béa"]), np.array(["carl"])], base
